@@ -1,5 +1,7 @@
 """C16 — the state dump shows the true machine state, completely and parseably."""
 
+from props.common_prog import judge_prog
+
 THEOREM_MODULES = ["Hcl.Theorems.C16", "Hcl.Theorems.C16ReadBack", "Hcl.Tie.Banks", "Hcl.Tie.PinsDump"]
 THEOREMS = {"Hcl.Theorems.C16ReadBack": ["C16_dump_readback", "C16_registers_readback", "C16_memory_readback", "Dump.state_parse", "Dump.state_readback_error", "Dump.bank_readback", "Spec.DumpFormat.toNat?_toDec"],
             "Hcl.Tie.Banks": ["Tie.Banks.bankOrder"], "Hcl.Theorems.C16": ["C16_hex_roundtrip", "C16_hexpad_roundtrip", "hexDigits_roundtrip", "C16_memory_text", "C16_memory_tokens",
@@ -8,7 +10,8 @@ THEOREMS = {"Hcl.Theorems.C16ReadBack": ["C16_dump_readback", "C16_registers_rea
                                                                 "Dump.memToks_spec", "Dump.walkKey_key", "Yo.load_sorted", "runN_mem_sorted"],
             "Hcl.Tie.PinsDump": ["Tie.PinsDump.pinDumpMemory", "Tie.PinsDump.pinDumpBank", "Tie.PinsDump.pinDumpCustom", "Tie.PinsDump.pinDumpRegisters", "Tie.PinsDump.pinDumpY86", "Tie.PinsDump.pinNameStatus"]}
 
-RULE = ("S-DUMP: machine states set through the verif-hooks setters - program registers 0..2^64-1, 0-4 memory clusters "
+RULE = ("S-PROG memory: programs that store through the memory port (also zeros, also to never-used addresses): the set of used bytes after every cycle must be the model's. "
+        "S-DUMP: machine states set through the verif-hooks setters - program registers 0..2^64-1, 0-4 memory clusters "
         "(unaligned first address, rows far apart, within 40 bytes of 2^64, holes inside rows), 0-6 register banks with 1-12 "
         "registers of width 0-128 and names of 1-60 characters incl. non-ASCII (forcing wrapped lines), random "
         "stall/bubble/Stat, cycle/timeout combinations for every banner, with and without -t - rendered by the real "
@@ -46,4 +49,7 @@ def judge(req, impl, model, spec):
 
 def streams(tier, seed):
     q = tier == "quick"
-    return [{"name": "dump", "stream": "dump", "count": 1500 if q else 60000, "judge": judge}]
+    return [{"name": "dump", "stream": "dump", "count": 1500 if q else 60000, "judge": judge},
+            # "every memory byte that has been loaded or written": the memory after every cycle of programs that store (also
+            # zeros, also to never-used addresses) is the model's, byte for byte - what the dump then prints is covered above
+            {"name": "prog-memory", "stream": "prog", "count": 200 if q else 8000, "extra": ("memory",), "judge": judge_prog}]
